@@ -72,6 +72,9 @@ def run(chk):
         c07.r2(c, f2)
         c07.r3(c, f2)
     chk.borrow(r23, {"C07.R3": "C10.R1"})
+    # ... and the order being walked is the same in every round: sample numbers depend on the seed and the position only, never on
+    # what earlier rounds did to the records (C07.R5)
+    chk.borrow(c07.r5, {"C07.R5": "C10.R1"})
     # R2 sticky confirmation
     chk.borrow(c09.r_set_p_values, {"C09.R3": "C10.R2"})
     chk.borrow(c09.r_reset, {"C09.R5": "C10.R2"})
